@@ -328,23 +328,43 @@ def snoc_fact(P, e):
 
 
 class WalkLoop(LoopSpec):
+    """the overhang walk.  The locals are found by the ROLE they play (the sequence-valued cursor, the record being
+    accumulated, the map being emptied, the entity just popped), not by their names: a renaming is not a change"""
     kind = ast.While
     def __init__(self, con):
         self.con = con
 
+    @staticmethod
+    def _local(st, role):
+        from pyvc.symex import Unsupported
+        env = {k: v for k, v in st.env.items() if k != "self"}
+        if role == "next":
+            c = [k for k, v in env.items() if isinstance(v, VObj) and v.kind == "Seq"]
+        elif role == "acc":
+            c = [k for k, v in env.items() if isinstance(v, VObj) and v.kind in ("SeqRecord", "CircularRecord")]
+        elif role == "map":
+            c = [k for k, v in env.items() if isinstance(v, VDict)]
+        else:
+            c = [k for k, v in env.items() if isinstance(v, VObj) and v.kind not in ("Seq", "SeqRecord", "CircularRecord")
+                 and st.get(v, "ident") is not None]
+        if len(c) != 1:
+            raise Unsupported("overhang walk: %d locals could be the %s of the loop (%s)" % (len(c), role, sorted(c)))
+        return c[0]
+
     def havoc(self, ex, st, ctx, modified):
         st = st.fork()
-        st.env["overhang_next"] = ex.models.mk_seq(st, tm.fresh("overhang_next", STR))
-        acc = st.env["assembly"]
+        st.env[self._local(st, "next")] = ex.models.mk_seq(st, tm.fresh("overhang_next", STR))
+        acc_name = self._local(st, "acc")
+        acc = st.env[acc_name]
         r = ex.models.mk_record(st, "SeqRecord", tm.fresh("acc", STR))
         for k, f in st.fields(acc).items():
             if k != "seq":
                 st.set_inplace(r, k, f)
         st.set_inplace(r, "features", VT(tm.fresh("accfeats", FEATS), "list"))
-        st.env["assembly"] = r
-        if "module" in st.env:
-            del st.env["module"]
-        d = st.env["modmap"]
+        st.env[acc_name] = r
+        for k_ in [k_ for k_, v_ in st.env.items() if k_ != "self" and isinstance(v_, VObj) and v_.kind not in ("Seq", "SeqRecord", "CircularRecord") and st.get(v_, "ident") is not None]:
+            del st.env[k_]
+        d = st.env[self._local(st, "map")]
         st.set_inplace(d, "arr", VT(tm.fresh("A", MAP)))
         st.ghost["path"] = tm.fresh("P", SEQI)
         st.ghost["removed"] = tm.fresh("removed", REM)
@@ -357,12 +377,13 @@ class WalkLoop(LoopSpec):
         v, A0 = con.v, con.A0
         P = st.ghost.get("path", tm.seqempty(INT))
         removed = st.ghost.get("removed", tm.constarr(REM, tm.FALSE))
-        A = map_arr(st, st.env["modmap"])
-        on = ex.models.text(st, st.env["overhang_next"])
-        acc = ex.models.rec_text(st, st.env["assembly"])
+        A = map_arr(st, st.env[self._local(st, "map")])
+        on = ex.models.text(st, st.env[self._local(st, "next")])
+        acc_ = st.env[self._local(st, "acc")]
+        acc = ex.models.rec_text(st, acc_)
         s, t = tm.V("s", STR), tm.V("t", INT)
         need_catfeats(ex.models)
-        accf = ex.models.feats_term(st, st.get(st.env["assembly"], "features"))
+        accf = ex.models.feats_term(st, st.get(acc_, "features"))
         inv = [("accumulated-text-is-cat-of-the-path", tm.eq(acc, tm.app("cat", STR, P))),
                ("accumulated-features-are-the-shifted-fragment-tables", tm.eq(accf, tm.app("catfeats", FEATS, P))),
                ("next-overhang-is-the-end-of-the-path", tm.eq(on, last_end(P, v)))]
@@ -388,17 +409,17 @@ class WalkLoop(LoopSpec):
 
     def at_body_start(self, ex, st, ctx):
         st = st.fork()
-        st.ghost["on_at_start"] = ex.models.text(st, st.env["overhang_next"])
+        st.ghost["on_at_start"] = ex.models.text(st, st.env[self._local(st, "next")])
         return st
 
     def decreases(self, ex, s_start, s_end, ctx):
         """variant of the walk: the number of modules still filed in the map (each turn pops one)"""
-        return (tm.app("card", INT, map_arr(s_start, s_start.env["modmap"])),
-                tm.app("card", INT, map_arr(s_end, s_end.env["modmap"])))
+        return (tm.app("card", INT, map_arr(s_start, s_start.env[self._local(s_start, "map")])),
+                tm.app("card", INT, map_arr(s_end, s_end.env[self._local(s_end, "map")])))
 
     def at_body_end(self, ex, st, ctx):
         st = st.fork()
-        e = st.get(st.env["module"], "ident").t
+        e = st.get(st.env[self._local(st, "module")], "ident").t
         st.ghost["usedby"] = tm.store(st.ghost["usedby"], st.ghost["on_at_start"], tm.seqlen(st.ghost["path"]))
         st.ghost["path"] = tm.seqcat(st.ghost["path"], tm.sequnit(e))
         st.ghost["removed"] = tm.store(st.ghost["removed"], st.ghost["on_at_start"], tm.TRUE)
